@@ -40,12 +40,28 @@ def expected_equal(x, y, md):
     for n, a in md.attrs.items():
         if not a.compare:
             continue
-        hx, hy = n in vars(x), n in vars(y)
-        if hx != hy:
+        vx, vy = attr_value(x, n), attr_value(y, n)
+        if (vx is _ABSENT) != (vy is _ABSENT):
             return False
-        if hx and not values_equal(vars(x)[n], vars(y)[n]):
+        if vx is not _ABSENT and not values_equal(vx, vy):
             return False
     return True
+
+
+_ABSENT = object()
+
+
+def attr_value(x, n):
+    """what the attribute holds: the stored value, or - for attributes served by a descriptor (Alias, property) - what
+    reading it gives; _ABSENT when it has no value"""
+    if n in vars(x):
+        return vars(x)[n]
+    if hasattr(type(vars(type(x)).get(n, None)), "__get__") or any(hasattr(type(vars(k).get(n)), "__get__") for k in type(x).__mro__ if n in vars(k)):
+        try:
+            return getattr(x, n)
+        except AttributeError:
+            return _ABSENT
+    return _ABSENT
 
 
 def repr_names(r):
@@ -224,7 +240,7 @@ def check_pool(C, rec, label, insts, hists, classes_md):
         except Exception as e:
             C.viol(violation(PROP, sig("deepcopy_raised", error=type(e).__name__), {"error": repr(e)[:200]}, case([i])))
         # reconstruction from own attribute values
-        kw = {nm: vars(x)[nm] for nm, a in md.attrs.items() if a.init and nm in vars(x) and nm != md.init_overflow_attr}
+        kw = {nm: attr_value(x, nm) for nm, a in md.attrs.items() if a.init and attr_value(x, nm) is not _ABSENT and nm != md.init_overflow_attr}
         noninit_default = all((nm in vars(x)) == (nm in vars(type(x)(**{k: v for k, v in kw.items() if k == md.key}))) for nm, a in md.attrs.items() if not a.init) if any(not a.init for a in md.attrs.values()) else True
         if md.key and md.key not in vars(x):
             continue  # a keyed instance whose key was deleted cannot be rebuilt through the constructor
@@ -319,6 +335,8 @@ def mixed_class(order, variant="base"):
     lines = ["@spec_class", "class Mixed:"]
     for n in order:
         ann, dflt, _, _ = FIELDS[n]
+        if variant == "hid_visible" and n == "hid":
+            dflt = "0"  # an ordinary attribute of the same NAME as another class' hidden one (rendered after it, in the same process)
         lines.append(f"    {n}: {ann} = {dflt}" if dflt is not None else f"    {n}: {ann}")
     # spec subclasses that make the library rebuild the inherited attribute specifications: the options the
     # owner declared (compare=False, repr=False) must survive a re-default / a change of copy policy
@@ -327,23 +345,26 @@ def mixed_class(order, variant="base"):
     elif variant == "sub_dnc":
         lines += ["@spec_class(do_not_copy=True)", "class Sub(Mixed):", "    pass"]
     exec(compile("\n".join(lines) + "\n", "<c10-mixed>", "exec", dont_inherit=True), ns)
-    return ns["Sub" if variant != "base" else "Mixed"]
+    return ns["Sub" if variant in ("sub_redefault", "sub_dnc") else "Mixed"]
 
 
 def single_diff_worker(task):
     C = Counter()
-    for order, variant in itertools.product(task["orders"], ("base", "sub_redefault", "sub_dnc")):
+    for order, variant in itertools.product(task["orders"], ("base", "sub_redefault", "sub_dnc", "hid_visible")):
         if variant == "sub_redefault" and not any(n in ("hid", "i", "s") for n in order):
             continue
+        if variant == "hid_visible" and "hid" not in order:
+            continue
+        hidden = () if variant == "hid_visible" else ("hid",)
         cls = mixed_class(order, variant)
         C.inc("states")
         base_kw = {n: copy.copy(FIELDS[n][2]) if isinstance(FIELDS[n][2], list) else FIELDS[n][2] for n in order}
         x = cls(**base_kw)
         C.inc("evaluations")
         rn = repr_names(x.__repr__(indent=False))
-        if rn != [n for n in order if n != "hid"]:
+        if rn != [n for n in order if n not in hidden]:
             C.viol(violation(PROP, {"part": "single_difference", "kind": "repr_attribute_list", "variant": variant},
-                             {"names": rn, "expected": [n for n in order if n != "hid"]},
+                             {"names": rn, "expected": [n for n in order if n not in hidden]},
                              {"part": "single_difference", "order": list(order), "attr": order[0], "alt": repr(FIELDS[order[0]][3][0]), "variant": variant}))
         for pos, n in enumerate(order):
             for alt in FIELDS[n][3]:
@@ -352,7 +373,7 @@ def single_diff_worker(task):
                 y = cls(**{k: v for k, v in kw.items() if not (isinstance(v, str) and v == "<omit>")})
                 C.inc("transitions")
                 C.inc("evaluations")
-                exp = (n == "hid")
+                exp = (n in hidden)
                 try:
                     got1, got2 = bool(x == y), bool(y == x)
                     ne = bool(x != y)
@@ -371,6 +392,89 @@ def single_diff_worker(task):
                     C.inc("traces_validated_against_impl")
                     C.nontrivial((tuple(order), n, repr(alt), variant))
     C.sample({"part": "single_difference", "order": list(task["orders"][0])})
+    return C.rec
+
+
+# ------------------------------------------------------------------------------------------------
+# (d) comparisons that are aborted by a raising attribute __eq__: a later comparison of the same objects is unaffected
+# ------------------------------------------------------------------------------------------------
+ABORT_SRC = '''
+from typing import Any
+from spec_classes import spec_class
+ARM = {"on": False}
+
+class Flaky:
+    def __init__(self, v):
+        self.v = v
+    def __eq__(self, other):
+        if ARM["on"]:
+            raise RuntimeError("comparison fails")
+        return isinstance(other, Flaky) and self.v == other.v
+    def __ne__(self, other):
+        return not self.__eq__(other)
+    __hash__ = None
+
+@spec_class
+class E:
+    a: Any = None
+    count: int = 0
+'''
+ABORT_OPS = ["eq_xy_armed", "eq_yx_armed", "eq_xy", "eq_yx", "ne_xy", "make_equal", "make_different"]
+
+
+def abort_case(seq):
+    ns = {"__name__": "verif_c10_abort"}
+    exec(compile(ABORT_SRC, "<c10-abort>", "exec", dont_inherit=True), ns)
+    E, Flaky, ARM = ns["E"], ns["Flaky"], ns["ARM"]
+    x, y = E(a=Flaky(1), count=1), E(a=Flaky(1), count=2)
+    probs = []
+    for i, op in enumerate(seq):
+        want_eq = x.count == y.count
+        try:
+            if op.endswith("_armed"):
+                ARM["on"] = True
+                try:
+                    (x == y) if op.startswith("eq_xy") else (y == x)
+                    probs.append(f"step {i} {op}: the raising attribute comparison was swallowed")
+                except RuntimeError:
+                    pass
+                finally:
+                    ARM["on"] = False
+            elif op == "eq_xy":
+                if bool(x == y) != want_eq:
+                    probs.append(f"step {i}: x == y is {x == y} although count {x.count} vs {y.count}")
+            elif op == "eq_yx":
+                if bool(y == x) != want_eq:
+                    probs.append(f"step {i}: y == x is {y == x} although count {x.count} vs {y.count}")
+            elif op == "ne_xy":
+                if bool(x != y) != (not want_eq):
+                    probs.append(f"step {i}: x != y is {x != y} although count {x.count} vs {y.count}")
+            elif op == "make_equal":
+                y.count = x.count
+            elif op == "make_different":
+                y.count = x.count + 1
+        except Exception as e:
+            probs.append(f"step {i} {op}: raised {type(e).__name__}")
+    return probs
+
+
+def abort_worker(task):
+    C = Counter()
+    for r in (1, 2, 3):
+        for seq in itertools.product(ABORT_OPS, repeat=r):
+            if not any(o.endswith("_armed") for o in seq):
+                continue
+            probs = abort_case(seq)
+            C.inc("states")
+            C.inc("transitions", len(seq))
+            C.inc("evaluations")
+            if probs:
+                C.viol(violation(PROP, {"part": "aborted_comparison", "kind": "comparison_depends_on_an_earlier_aborted_one", "first": seq[0], "length": len(seq)},
+                                 {"problems": probs[:3], "sequence": list(seq)}, {"part": "aborted_comparison", "sequence": list(seq)}))
+            else:
+                C.inc("traces_validated_against_impl")
+                C.nontrivial(("abort", seq))
+    C.sample({"part": "aborted_comparison", "ops": ABORT_OPS})
     return C.rec
 
 
@@ -448,10 +552,15 @@ class KNode:
 
 
 def work(task):
-    return {"pool": pool_worker, "single": single_diff_worker, "selfref": selfref_worker}[task["part"]](task)
+    return {"pool": pool_worker, "single": single_diff_worker, "selfref": selfref_worker, "abort": abort_worker}[task["part"]](task)
 
 
 def run_case(case):
+    if case["part"] == "aborted_comparison":
+        probs = abort_case(tuple(case["sequence"]))
+        seq = case["sequence"]
+        return [violation(PROP, {"part": "aborted_comparison", "kind": "comparison_depends_on_an_earlier_aborted_one", "first": seq[0], "length": len(seq)},
+                          {"problems": probs[:3], "sequence": list(seq)}, case)] if probs else []
     if case["part"] == "pool":
         rec = case["rec"]
         sub = pool_worker({"rec": rec, "limit": 12})
@@ -481,6 +590,9 @@ def main(run):
         G.composite("CompInvRev", [("str", "lit"), ("int", "lit"), ("nums", "mut")], invalidated_by={"s": ["v"]}),
         G.composite("CompInvRevNoDefault", [("str", "lit"), ("float", "lit"), ("int", "none")], invalidated_by={"s": ["v"], "f": ["s"]}),
     ]
+    from props.c07 import alias_records
+
+    recs += alias_records()  # Alias attributes: a local override is part of the instance's state (copied, compared, rendered)
     tasks = [{"part": "pool", "rec": r, "limit": 8 if quick else 12} for r in recs if r.get("opts", {}).get("do_not_copy") is not True]
     names = ["i", "cb", "s", "hid", "fn"] if quick else ["i", "cb", "s", "hid", "fn", "xs"]
     orders = list(itertools.permutations(names))
@@ -490,6 +602,7 @@ def main(run):
     for i in range(0, len(orders), 12):
         tasks.append({"part": "single", "orders": orders[i:i + 12]})
     tasks.append({"part": "selfref"})
+    tasks.append({"part": "abort"})
     for rec in pmap(work, tasks):
         run.merge(rec)
     run.add(rule=(
